@@ -8,7 +8,9 @@ pub(crate) fn remove_insignificant_whitespace(xot: &mut Xot, node: Node) {
         }
     }
     for node in to_remove {
-        xot.remove(node).unwrap();
+        // take out just this text node: the consolidating Xot::remove would
+        // merge the text nodes around it, which may lie outside `node`
+        node.get().remove(xot.arena_mut());
     }
 }
 
